@@ -451,7 +451,11 @@ def gather(node: ir.Node, op, state: OptimizerState) -> ReturnValue:
         return None
     if indices_numpy_value.ndim != 1:
         return None
-    gathered = [input_sym_value[i] for i in indices_numpy_value]
+    try:
+        gathered = [input_sym_value[i] for i in indices_numpy_value]
+    except IndexError:
+        # Out-of-range index: an error at run time only if this node is ever executed.
+        return None
     output = _get_output(node, 0)
     if output is not None:
         state.set_sym_value(output, ir.Shape(gathered))
